@@ -596,6 +596,30 @@ class Expander:
         raise Unsupported(f"cannot take component {k} of {v}")
 
     # -------------------------------------------------------------- expressions
+    def _constant_global(self, name, value):
+        """`name` is bound once at module level (and nowhere else in the module) to an expression of literals, pi / e and
+        log / sqrt / exp of such."""
+        binds = 0
+        for n in ast.walk(self.mi.tree):
+            if isinstance(n, (ast.Assign, ast.AugAssign, ast.AnnAssign)):
+                tg = n.targets if isinstance(n, ast.Assign) else [n.target]
+                binds += sum(1 for t in tg for x in ast.walk(t) if isinstance(x, ast.Name) and x.id == name and isinstance(x.ctx, ast.Store))
+            elif isinstance(n, ast.Global) and name in n.names:
+                return False
+        if binds != 1:
+            return False
+        for n in ast.walk(value):
+            if isinstance(n, ast.Name):
+                q = self.mi.imports.get(n.id, "")
+                if not (q.split(".")[0] in ("numpy", "math") and q.split(".")[-1] in ("pi", "e", "log", "sqrt", "exp", "log2", "log10")):
+                    return False
+            elif isinstance(n, ast.Call):
+                if not isinstance(n.func, ast.Name) or n.keywords:
+                    return False
+            elif not isinstance(n, (ast.Constant, ast.BinOp, ast.UnaryOp, ast.operator, ast.unaryop, ast.Load, ast.expr_context)):
+                return False
+        return True
+
     def eval(self, node, env):
         if isinstance(node, ast.Constant):
             v = node.value
@@ -619,6 +643,13 @@ class Expander:
             if q in ("numpy.pi", "math.pi"):
                 return anf.PI
             if node.id in self.mi.globals and q is None:
+                gv = self.mi.globals[node.id]
+                if self._constant_global(node.id, gv):
+                    # a module-level constant folded out of a formula (LOG_ROOT_TWO_PI = 0.5 * log(2 * pi)): its value
+                    try:
+                        return self.eval(gv, {})
+                    except Unsupported:
+                        pass
                 return R.sym(f"{self.mi.name}.{node.id}")
             return R.sym(node.id)
         if isinstance(node, (ast.Subscript, ast.Attribute)):
